@@ -1,4 +1,5 @@
 """C22 — samples are never attributed to the wrong series: Refs.tla (reference-level model of the TSDB) + replay."""
+import os
 import random
 
 META = {
@@ -71,6 +72,13 @@ def run(ctx):
         import vlib
         raise vlib.Infra("no behaviours emitted")
     ctx.samples = [behs[0], behs[len(behs) // 2], behs[-1]]
+    if os.environ.get("VERIF_CORRUPT"):
+        # binding proof: falsify one prediction (the label sets a sample may be returned under) -> the check must exit 1
+        for b in behs:
+            st = [s for s in b if s.get("apps") and not s.get("kfs")]
+            if st and st[0]["apps"][0]["own"] == ["a"]:
+                st[0]["apps"][0]["own"] = ["b"]
+                break
     inp = ctx.write_ndjson("behaviours.ndjson", behs)
     gr = ctx.go_test("tsdb", HARNESS, "^TestVerifC22Replay$", env={"VERIF_IN": inp}, timeout="40m")
     ctx.absorb(gr, label="C22 replay")
